@@ -353,10 +353,16 @@ func TestVerif_C13_commit(t *testing.T) {
 			}
 			oc := ocr3types.OutcomeContext{SeqNr: 5, PreviousOutcome: raw}
 			tag := fmt.Sprintf("raw%d", k)
+			rawValid := false
 			run(sc.name, 6, tag, "raw", 1, "ValidateObservation", func() {
-				_ = vC13Plugin(1).ValidateObservation(ctx, octx, qB, types.AttributedObservation{Observation: raw, Observer: 0})
+				rawValid = vC13Plugin(1).ValidateObservation(ctx, octx, qB, types.AttributedObservation{Observation: raw, Observer: 0}) == nil
 			})
-			run(sc.name, 6, tag, "raw", 2, "Outcome", func() { _, _ = vC13Plugin(2).Outcome(ctx, oc, raw, mkAos(raw)) })
+			// raw bytes as previous outcome, as query, and (only if they pass validation) as an observation
+			run(sc.name, 6, tag, "raw-prev", 2, "Outcome", func() { _, _ = vC13Plugin(2).Outcome(ctx, oc, qB, mkAos(obsB[0])) })
+			run(sc.name, 6, tag, "raw-query", 2, "Outcome", func() { _, _ = vC13Plugin(2).Outcome(ctx, octx, raw, mkAos(obsB[0])) })
+			if rawValid {
+				run(sc.name, 6, tag, "raw-obs", 2, "Outcome", func() { _, _ = vC13Plugin(2).Outcome(ctx, octx, qB, mkAos(raw)) })
+			}
 			run(sc.name, 6, tag, "raw", 0, "Observation", func() { _, _ = vC13Plugin(2).Observation(ctx, oc, raw) })
 			run(sc.name, 6, tag, "raw", 3, "Reports", func() { _, _ = vC13Plugin(2).Reports(ctx, 5, raw) })
 			ri := ocr3types.ReportWithInfo[[]byte]{Report: raw, Info: raw}
